@@ -1,6 +1,4 @@
 HOOK_COMMITS = ["8f1db09", "f0a0ebc", "2b8c50b", "3c0971f"]
 
 _PENDING = "no check registered in this commit yet (machinery under construction; see DESIGN.md §12)"
-NOT_APPLICABLE = {p: _PENDING for p in
-                  ["C01", "C03", "C04", "C05", "C06", "C07", "C08", "C09", "C10", "C11", "C12",
-                   "C14", "C15", "C16", "C17", "C18", "C20"]}
+NOT_APPLICABLE = {}
